@@ -373,4 +373,210 @@ theorem accepts_iff (s : SchemaD) : accepts s = true ↔ ValidSchema s true := b
 
 instance (s : SchemaD) (rv : Bool) : Decidable (ValidSchema s rv) := decidable_of_iff _ (validate_iff s rv)
 
+/-! ### the `_is_valid` cache -/
+
+/-- cached-valid ⇒ the current schema is valid -/
+def CacheInv (st : CacheState) : Prop := st.isValid = true → ValidSchema st.schema true
+
+def isResolverOp : Op → Bool
+  | .replaceTypes _ => false
+  | _ => true
+
+private theorem registerDefault_inv (st : CacheState) (tn : String) (r : ResolverD) (allow : Bool)
+    (h : CacheInv st) : CacheInv (registerDefault st tn r allow).1 := by
+  unfold registerDefault
+  split
+  · exact h
+  · cases st.schema.findType tn with
+    | none => exact h
+    | some t =>
+      simp only []
+      split
+      · exact h
+      · split
+        · exact h
+        · intro hv; simp at hv
+
+private theorem step_inv_resolver (st : CacheState) (op : Op) (hop : isResolverOp op = true)
+    (h : CacheInv st) : CacheInv (step st op).1 := by
+  cases op with
+  | validate =>
+    simp only [step]
+    split
+    · exact h
+    · split
+      · rename_i hv
+        intro _
+        exact (validate_iff _ _).1 (List.isEmpty_iff.1 hv)
+      · exact h
+  | registerDefaultResolver tn r allow => exact registerDefault_inv st tn r allow h
+  | registerResolver tn fn r allow same =>
+    simp only [step]
+    split
+    · have := registerDefault_inv st tn r false h
+      cases hrd : registerDefault st tn r false with
+      | mk st1 o =>
+        rw [hrd] at this
+        simp only []
+        split <;> exact this
+    · split
+      · exact h
+      · cases st.schema.findType tn with
+        | none => exact h
+        | some t =>
+          simp only []
+          split
+          · exact h
+          · cases fieldMap t fn with
+            | none => exact h
+            | some f =>
+              simp only []
+              split
+              · exact h
+              · intro hv; simp at hv
+  | registerSubscription tn fn r allow same =>
+    simp only [step]
+    split
+    · exact h
+    · cases st.schema.findType tn with
+      | none => exact h
+      | some t =>
+        simp only []
+        split
+        · exact h
+        · cases fieldMap t fn with
+          | none => exact h
+          | some f => intro hv; simp at hv
+  | replaceTypes es => simp [isResolverOp] at hop
+
+/-- **Cache soundness (the statement: the verdict is recomputed after resolvers are reassigned).**
+    In every state reachable by `validate()`, `register_resolver`, `register_default_resolver`,
+    `register_subscription` calls (successful or raising), in any order and number, a cached
+    verdict `_is_valid = True` implies that the CURRENT schema is valid. -/
+theorem cache_sound (st : CacheState) (h : CacheInv st) (ops : List Op)
+    (hops : ∀ op ∈ ops, isResolverOp op = true) : CacheInv (run st ops) := by
+  induction ops generalizing st with
+  | nil => exact h
+  | cons op ops ih =>
+    simp only [run]
+    exact ih _ (step_inv_resolver st op (hops op (List.mem_cons_self ..)) h)
+      (fun o ho => hops o (List.mem_cons_of_mem _ ho))
+
+/-- consequence: whenever `validate()` returns normally after such a history, the schema is valid -/
+theorem validate_ok_means_valid (st : CacheState) (h : CacheInv st) (ops : List Op)
+    (hops : ∀ op ∈ ops, isResolverOp op = true)
+    (hok : (step (run st ops) .validate).2 = .ok) : ValidSchema (run st ops).schema true := by
+  have hinv := cache_sound st h ops hops
+  simp only [step] at hok
+  split at hok
+  · rename_i hv; exact hinv hv
+  · split at hok
+    · rename_i hv; exact (validate_iff _ _).1 (List.isEmpty_iff.1 hv)
+    · simp at hok
+
+/-- a fresh schema object (`_is_valid = None`) satisfies the invariant -/
+theorem cacheInv_init (s : SchemaD) : CacheInv { schema := s } := by
+  intro h; simp at h
+
+/-- replacing ONE type (`{name: new}`; `same` = the very object already registered, in which case the
+    description is unchanged) keeps the invariant -/
+def singleReplace : Op → Bool
+  | .replaceTypes [_] => true
+  | .replaceTypes _ => false
+  | _ => true
+
+/-- the flag `same` of a replacement entry is honest: the registered type of that name is `new` -/
+def HonestReplace (st : CacheState) : Op → Prop
+  | .replaceTypes es => ∀ e ∈ es, e.2.2 = true → ∀ t ∈ st.schema.types, (t.name == e.1) = true → t = e.2.1
+  | _ => True
+
+private theorem map_replace_id (types : List TypeD) (n : String) (new : TypeD)
+    (h : ∀ t ∈ types, (t.name == n) = true → t = new) :
+    types.map (fun t => if t.name == n then new else t) = types := by
+  induction types with
+  | nil => rfl
+  | cons t ts ih =>
+    simp only [List.map_cons]
+    rw [ih (fun u hu => h u (List.mem_cons_of_mem _ hu))]
+    by_cases hn : (t.name == n) = true
+    · rw [if_pos hn, h t (List.mem_cons_self ..) hn]
+    · rw [if_neg hn]
+
+private theorem applyReplace_single (types : List TypeD) (n : String) (new : TypeD) (same : Bool) :
+    ((applyReplace types false [(n, new, same)]).1 = types ∧
+      ((applyReplace types false [(n, new, same)]).2.2 = true ∨ (applyReplace types false [(n, new, same)]).2.1 = false)) ∨
+    ((applyReplace types false [(n, new, same)]).2.2 = false ∧ (applyReplace types false [(n, new, same)]).2.1 = !same ∧
+      (applyReplace types false [(n, new, same)]).1 = types.map (fun t => if t.name == n then new else t)) := by
+  simp only [applyReplace]
+  cases types.find? (·.name == n) with
+  | none => simp
+  | some orig =>
+    simp only []
+    split
+    · simp
+    · split <;> simp
+
+/-- **Cache soundness incl. `_replace_types_and_directives` — PARTIAL**: for histories whose replacement
+    maps have exactly one entry. The full statement (`CacheSoundWithReplace`, arbitrary maps) is false on
+    today's code: `busted_cache` is overwritten by every entry (ledger T3), see `cache_replace_full_fails_today`. -/
+theorem cache_sound_replace_partial (st : CacheState) (op : Op) (h1 : singleReplace op = true)
+    (hh : HonestReplace st op) (h : CacheInv st) : CacheInv (step st op).1 := by
+  cases op with
+  | replaceTypes es =>
+    match es, h1 with
+    | [(n, new, same)], _ =>
+      have hs := applyReplace_single st.schema.types n new same
+      simp only [step]
+      generalize applyReplace st.schema.types false [(n, new, same)] = r at hs ⊢
+      obtain ⟨types', busted, err⟩ := r
+      simp only at hs
+      rcases hs with ⟨rfl, herr | hb⟩ | ⟨herr, hb, ht⟩
+      · subst herr; exact h
+      · subst hb
+        cases err
+        · intro hv; exact h (by simpa using hv)
+        · exact h
+      · subst herr hb ht
+        cases same with
+        | false => intro hv; simp at hv
+        | true =>
+          have hid := map_replace_id st.schema.types n new
+            (fun t ht hn => hh (n, new, true) (List.mem_singleton.2 rfl) rfl t ht hn)
+          simp only [hid]
+          intro hv; exact h (by simpa using hv)
+  | validate => exact step_inv_resolver st _ rfl h
+  | registerDefaultResolver tn r a => exact step_inv_resolver st _ rfl h
+  | registerResolver tn fn r a sm => exact step_inv_resolver st _ rfl h
+  | registerSubscription tn fn r a sm => exact step_inv_resolver st _ rfl h
+
+/-- the full-strength statement including arbitrary replacement maps (kept visible; NOT a theorem today) -/
+def CacheSoundWithReplace : Prop :=
+  ∀ (st : CacheState) (op : Op), HonestReplace st op → CacheInv st → CacheInv (step st op).1
+
+private def wQuery : TypeD := { kind := .object, name := "Query", fields := [{ name := "a", type := .named "Int" }] }
+private def wA : TypeD := { kind := .object, name := "A", fields := [{ name := "a", type := .named "Int" }] }
+private def wInt : TypeD := { kind := .scalar, name := "Int", builtin := true }
+private def wSchema : SchemaD := { types := [wInt, wQuery, wA] }
+
+/-- Ledger T3, machine-checked on the model of the code as it is: replacing `{A: <A without fields>,
+    Query: <the same object>}` leaves `_is_valid = True` (the last entry overwrites `busted_cache`)
+    although the schema is now invalid. Outside the literal statement of C13 (which speaks of
+    resolver reassignment); recorded as a limit. -/
+theorem cache_replace_full_fails_today : ¬ CacheSoundWithReplace := by
+  intro h
+  have hv := h { schema := wSchema, isValid := true }
+    (.replaceTypes [("A", { wA with fields := [] }, false), ("Query", wQuery, true)])
+    (by
+      intro e he hs t ht hn
+      simp at he
+      rcases he with rfl | rfl
+      · simp at hs
+      · simp [wSchema] at ht
+        rcases ht with rfl | rfl | rfl <;> first | rfl | (simp [wInt, wA] at hn))
+    (by intro _; exact (validate_iff _ _).1 (by decide))
+  have : ¬ ValidSchema (step { schema := wSchema, isValid := true }
+      (.replaceTypes [("A", { wA with fields := [] }, false), ("Query", wQuery, true)])).1.schema true := by
+    rw [← validate_iff]; decide
+  exact this (hv (by decide))
+
 end PyGql.Props.C13
